@@ -250,3 +250,89 @@ def install_internal_fault(ctx: W.RunContext) -> None:
         ctx.extra["handler_fault"] = {"match": match, "fire": fire, "on": fault.get("on", "ScenarioFinished")}
     else:  # pragma: no cover
         raise ValueError(stage)
+
+
+# ---------------------------------------------------------------------------------------------
+# slow node: a worker stalls (virtual time) at a pipeline stage; nothing is raised
+
+
+def install_stalls(ctx: W.RunContext) -> None:
+    """`{"kind": "stall", "stage", "seconds", "op"?, "phase"?, "nth"?, "times"?}`: the thread that reaches the stage sleeps on
+    the virtual clock. Not an error - every oracle must hold unchanged; it creates the windows in which timeouts of other
+    threads (queue polls, joins) expire while this one holds in-flight work."""
+    stalls = [f for f in ctx.desc.get("faults", []) if f["kind"] == "stall"]
+    if not stalls:
+        return
+    import schemathesis
+
+    ctx.facts["stalls"] = []
+
+    def make(f: dict):
+        state = {"seen": 0, "fired": 0}
+        nth, times = int(f.get("nth", 0)), int(f.get("times", 1))
+
+        def maybe(label: str | None) -> None:
+            if state["fired"] >= times:
+                return
+            if f.get("phase") is not None and ctx.peer.phase != f["phase"]:
+                return
+            if f.get("op") is not None and label != f["op"]:
+                return
+            if state["seen"] < nth:
+                state["seen"] += 1
+                return
+            state["fired"] += 1
+            sched = ctx.sched
+            ctx.facts["stalls"].append({"stage": f["stage"], "op": label, "phase": ctx.peer.phase,
+                                        "thread": sched.current.sid if sched.current else None, "seconds": f["seconds"]})
+            sched.probes["stall"] += 1
+            sched.block(lambda: False, float(f["seconds"]), "sleep")
+
+        return maybe
+
+    def hook_traversal(maybe):
+        def before_init_operation(context, operation):  # noqa: ANN001
+            if ctx.peer.phase in ("examples", "coverage", "fuzzing"):
+                maybe(operation.label)
+
+        return before_init_operation
+
+    def hook_generation(maybe):
+        def map_case(context, case):  # noqa: ANN001
+            maybe(case.operation.label)
+            return case
+
+        return map_case
+
+    def slow_check(maybe, name):
+        def check(cctx, response, case):  # noqa: ANN001
+            maybe(case.operation.label)
+            return None
+
+        check.__name__ = name
+        return check
+
+    for f in stalls:
+        maybe = make(f)
+        stage = f["stage"]
+        if stage == "traversal":
+            schemathesis.hook("before_init_operation")(hook_traversal(maybe))
+        elif stage == "construction":
+            import schemathesis.generation.hypothesis.builder as builder
+
+            def wrap(orig, maybe):
+                def create_test(*, operation, test_func, config):  # noqa: ANN001
+                    maybe(operation.label)
+                    return orig(operation=operation, test_func=test_func, config=config)
+
+                return create_test
+
+            builder.create_test = wrap(builder.create_test, maybe)
+        elif stage == "generation":
+            schemathesis.hook("map_case")(hook_generation(maybe))
+        elif stage == "check":
+            name = f"sim_slow_check_{len(ctx.extra.setdefault('extra_checks', []))}"
+            schemathesis.check(slow_check(maybe, name))
+            ctx.extra["extra_checks"].append(name)
+        else:  # pragma: no cover
+            raise ValueError(stage)
